@@ -211,6 +211,8 @@ def run(ctx):
     check_equivariance(ctx)
     check_shift(ctx)
     check_purity(ctx)
+    from . import common
+    common.check_shared_class_state(ctx, [('models', 'Models'), ('fit', 'Fitter'), ('fit_info', 'FitInfo'), ('source.source', 'Source')])
 
 
 MO = 'sedfitter/models.py'
